@@ -6,15 +6,16 @@ import numpy as np
 import common as C
 
 PID = "C11"
-DRIVER = [("C11", "TfPwaV.Gen.KinF", "KinF.handle"), ("C11d", "TfPwaV.Gen.DalitzF", "DalitzF.handle")]
-LEAN_TARGETS = ["TfPwaV.Props.C11", "TfPwaV.Props.C11b", "TfPwaV.Gen.KinF", "TfPwaV.Gen.DalitzF"]
-PROP_MODULES = ["TfPwaV.Props.C11", "TfPwaV.Props.C11b"]
-ALL_MODULES = ["TfPwaV.Proofs.Kin", "TfPwaV.Proofs.Dalitz", "TfPwaV.Props.C11", "TfPwaV.Props.C11b", "TfPwaV.Proofs.ScalarR"]
+DRIVER = [("C11", "TfPwaV.Gen.KinF", "KinF.handle"), ("C11d", "TfPwaV.Gen.DalitzF", "DalitzF.handle"), ("C11a", "TfPwaV.Gen.AngleF", "AngleF.handle")]
+LEAN_TARGETS = ["TfPwaV.Props.C11", "TfPwaV.Props.C11b", "TfPwaV.Props.C11c", "TfPwaV.Gen.KinF", "TfPwaV.Gen.DalitzF", "TfPwaV.Gen.AngleF"]
+PROP_MODULES = ["TfPwaV.Props.C11", "TfPwaV.Props.C11b", "TfPwaV.Props.C11c"]
+ALL_MODULES = ["TfPwaV.Proofs.Kin", "TfPwaV.Proofs.Dalitz", "TfPwaV.Props.C11", "TfPwaV.Props.C11b", "TfPwaV.Proofs.ScalarR", "TfPwaV.Proofs.Angle", "TfPwaV.Props.C11c"]
 ASSUMPTIONS = [
     "IEEE double evaluation of the same formula text (Lean Float vs TensorFlow) agrees to 1e-11 relative to the scale gamma^2*|p|; cases with gamma > 1e4 are counted as ill-conditioned and skipped",
     "theorems hold over the reals in the regular branch eps < |v|^2 < 1; the guard branch (|v|^2 <= 1e-14) has its own statements",
     "Dalitz theorem (dalitz_reproduces) holds in the interior of the Dalitz region as seen by the code's own square roots (lambda > 0, x14*G >= 0)",
-    "helicity-angle cascade round trip (build_data -> cal_angle -> find_variable) is NOT proved: it is validated on the implementation for every topology with 3..5 final particles (all 3+15+105 chains of DecayChain.from_particles) on seeded masses/angles, tolerance 1e-6 (the chain takes acos/cos and sqrt|m^2| of rounded quantities: observed error <= 3e-8)",
+    "single-vertex helicity-angle extraction is proved (angle_step_roundtrip: in an orthonormal right-handed frame, angle_zx_z_getx of a daughter built at (theta, phi) returns (phi, theta) and the constructor's new x-axis; guard P sin(theta) >= 1e-14); the boosts between the vertices of a cascade and the alpha range shift of the second daughter are not in that theorem",
+    "helicity-angle cascade round trip (build_data -> cal_angle -> find_variable) is NOT proved as a whole: it is validated on the implementation for every topology with 3..5 final particles (all 3+15+105 chains of DecayChain.from_particles) on seeded masses/angles, tolerance 1e-6 (the chain takes acos/cos and sqrt|m^2| of rounded quantities: observed error <= 3e-8)",
 ]
 
 
@@ -356,9 +357,65 @@ def search_cascade(ctx, res):
     res.samples.append({"cascade_chains_checked": nch, "worst_roundtrip_error": worst})
 
 
+def correspond_angle(ctx, res):
+    """templates/Angle.lean.in (Float) vs Vector3.cross_unit / EulerAngle.angle_zx_z_getx on seeded frames."""
+    import tensorflow as tf
+    from tf_pwa.angle import EulerAngle, Vector3
+    rng = np.random.Generator(np.random.Philox(ctx.seed + 1103))
+    n = 1500 if ctx.quick else 30000
+    # random orthonormal frames (QR), daughter directions incl. nearly collinear with z (conditioning guard below)
+    Q = np.linalg.qr(rng.normal(size=(n, 3, 3)))[0]
+    Q[:, :, 2] *= np.sign(np.linalg.det(Q))[:, None]  # right-handed
+    X, Z = Q[:, :, 0], Q[:, :, 2]
+    Y = Q[:, :, 1]
+    th = rng.uniform(0.02, math.pi - 0.02, n)
+    th[:20] = np.array([1e-3, 1e-5, math.pi - 1e-4, math.pi / 2] * 5)
+    ph = rng.uniform(-math.pi, math.pi, n)
+    P = np.abs(rng.normal(size=n)) + 0.05
+    p = P[:, None] * (np.sin(th)[:, None] * (np.cos(ph)[:, None] * X + np.sin(ph)[:, None] * Y) + np.cos(th)[:, None] * Z)
+    # axes passed un-normalised, as the code does (z of a daughter is its momentum)
+    zs = Z * (np.abs(rng.normal(size=n)) + 0.1)[:, None]
+    ang, x2 = EulerAngle.angle_zx_z_getx(tf.constant(zs), tf.constant(X), tf.constant(p))
+    cu = Vector3.cross_unit(tf.constant(zs), tf.constant(p)).numpy()
+    al, be, x2 = ang["alpha"].numpy(), ang["beta"].numpy(), x2.numpy()
+    lines = []
+    for i in range(n):
+        lines.append("C11a getx " + " ".join(C.f2h(v) for v in list(zs[i]) + list(X[i]) + list(p[i])))
+        lines.append("C11a crossunit " + " ".join(C.f2h(v) for v in list(zs[i]) + list(p[i])))
+    out = ctx.model.query(lines)
+    nbad, worst, first, nskip = 0, 0.0, None, 0
+    for i in range(n):
+        if out[2 * i] == "bad-op":
+            res.broke("model driver bad-op (Angle)", lines[0])
+            return
+        mv = np.array([C.h2f(v) for v in out[2 * i].split()])
+        cv = np.array([C.h2f(v) for v in out[2 * i + 1].split()])
+        st = math.sin(th[i])
+        if st < 1e-6:  # azimuth ill-defined near the poles
+            nskip += 1
+            continue
+        da = abs(mv[0] - al[i]); da = min(da, abs(da - 2 * math.pi))
+        err = max(da * st, abs(mv[1] - be[i]) * st, float(np.max(np.abs(mv[2:] - x2[i]))) * st, float(np.max(np.abs(cv - cu[i]))) * st)
+        worst = max(worst, err)
+        # the theorem's content, on the implementation: extracted (alpha, beta) are (phi, theta)
+        dphi = abs(al[i] - ph[i]); dphi = min(dphi, abs(dphi - 2 * math.pi))
+        if not (err < 1e-11 and dphi * st < 1e-9 and abs(be[i] - th[i]) * st < 1e-9):
+            nbad += 1
+            if first is None:
+                first = {"z": list(zs[i]), "x": list(X[i]), "p": list(p[i]), "theta": th[i], "phi": ph[i], "impl": [al[i], be[i]] + list(x2[i]), "model": list(map(float, mv)), "err": err}
+    res.coverage["angle_vertices"] = n
+    res.coverage["angle_skipped_near_pole"] = nskip
+    res.coverage["angle_worst_err"] = worst
+    res.coverage["traces_validated_against_impl"] = res.coverage.get("traces_validated_against_impl", 0) + 2 * (n - nskip)
+    res.samples.append({"op": lines[0], "model": out[0]})
+    if nbad:
+        res.broke("correspondence AngleF vs EulerAngle.angle_zx_z_getx / Vector3.cross_unit", {"n": nbad, "first": first})
+
+
 def correspond(ctx, res):
     correspond_boost(ctx, res)
     correspond_dalitz(ctx, res)
+    correspond_angle(ctx, res)
 
 
 def search(ctx, res):
@@ -431,6 +488,6 @@ def json_dumps(x):
 
 MANIFEST = {
     "text": "Lean theorems over the reals for ALL four-vectors and all velocities in the regular branch eps<|v|^2<1: boosts preserve Minkowski products and masses (boost_minkowski, boost_mass), boost by v then -v is the identity (boost_inverse), rest_vector then boost back is the identity, boost matrix = vector boost (all inputs), rotations preserve products; the eps-guard branch is stated separately; momenta built from Dalitz variables are on shell, sum to the parent at rest and reproduce (m12, m23) everywhere inside the Dalitz region (dalitz_reproduces, certificate-checked). The same definition text is instantiated at Float and compared with tf_pwa.angle.LorentzVector.",
-    "note": "Model = templates/Kin.lean.in instantiated at R (proofs) and Float (execution); tie = differential run against LorentzVector.boost/rest_vector/boost_matrix/Dot/M on seeded structured vectors (tol 1e-11 relative to gamma^2|p|, gamma>1e4 skipped). + Dalitz.generate_p vs templates/Dalitz.lean.in (a line-by-line transcription of _generate_fun0). Float rounding itself is not verified. NOT proved, validated only: the helicity-angle cascade round trip HelicityAngle.build_data -> cal_angle -> find_variable, run on the implementation for every chain topology with 3..5 final particles (all in the thorough tier, all 3- and 4-body plus a seeded 30% of the 105 five-body chains in the quick tier).",
+    "note": "Model = templates/Kin.lean.in instantiated at R (proofs) and Float (execution); tie = differential run against LorentzVector.boost/rest_vector/boost_matrix/Dot/M on seeded structured vectors (tol 1e-11 relative to gamma^2|p|, gamma>1e4 skipped). + Dalitz.generate_p vs templates/Dalitz.lean.in (a line-by-line transcription of _generate_fun0). Float rounding itself is not verified. Proved for a single vertex (angle_step_roundtrip, Props/C11c.lean: extraction of (phi, theta) and of the new x-axis in any orthonormal right-handed frame; model templates/Angle.lean.in compared with EulerAngle.angle_zx_z_getx / Vector3.cross_unit). NOT proved as a whole, validated only: the helicity-angle cascade round trip HelicityAngle.build_data -> cal_angle -> find_variable, run on the implementation for every chain topology with 3..5 final particles (all in the thorough tier, all 3- and 4-body plus a seeded 30% of the 105 five-body chains in the quick tier).",
     "technique": "Lean 4 proof over the reals (linear_combination certificates) of one template instantiated at Float for differential correspondence with the implementation",
 }
